@@ -157,7 +157,11 @@ def run(ctx):
             for c, r in zip(cases, reals):
                 if r["code"] >= 100 or not r["tt"]:
                     continue  # rejected by pulser's constructors / by the adapter: not a run
-                ev.add(tg.model_run_expr(dict(c, nsteps=r["nsteps"]), r["tt"]))
+                if r["nsteps"] == len(r["tt"]) - 1:
+                    # adapter + backend composed: the model builds its own grid from (duration, dt, config)
+                    ev.add(tg.model_pipeline_expr(c, r["tt"][-1]))
+                else:  # rows of drive samples != intervals (never on the current tree): model of the loop alone
+                    ev.add(tg.model_run_expr(dict(c, nsteps=r["nsteps"]), r["tt"]))
                 idx.append((c, r))
             outs = ev.run()
             for (c, r), o in zip(idx, outs):
@@ -182,7 +186,7 @@ def run(ctx):
                     ctx.extra["first_disagreement"] = {"case": c, "real": real, "model": m}
         except (common.CoqEvalError, ValueError) as ex:
             corr_ok, detail = False, str(ex)
-    ctx.obligation("correspondence:Model.TimeGrid.run==emu-sv/emu-mps/DMRG runs "
+    ctx.obligation("correspondence:Model.TimeGrid.run_config (adapter grid + run)==PulserData + emu-sv/emu-mps/DMRG runs "
                    "(recorded (time,step) per observable, statistics times, solver steps; bit-exact)",
                    corr_ok, detail, kind="correspondence")
     ctx.extra["input_distribution"] = {f"{k[0]}/code{k[1]}": v for k, v in sorted(hist.items())}
